@@ -589,6 +589,8 @@ func (r *rebuilder) buildSpecial(kind, s string, t types.Type, v string) string 
 // ---- clause -> Go ------------------------------------------------------------------------------
 
 type goTr struct {
+	pos     bool // current polarity is positive (a dropped conjunct may be replaced by true)
+	partial bool // some conjunct without executable counterpart was dropped
 	w    *World
 	pkg  *types.Package
 	vars map[string]string // contract identifier -> Go expression
@@ -628,9 +630,31 @@ func (g *goTr) tr(x ast.Expr, inOld bool) string {
 	case *ast.StarExpr:
 		return "*" + g.tr(x.X, inOld)
 	case *ast.UnaryExpr:
+		savedPos := g.pos
+		g.pos = false
+		defer func() { g.pos = savedPos }()
 		return x.Op.String() + g.tr(x.X, inOld)
 	case *ast.BinaryExpr:
+		if x.Op == token.LAND && g.pos && g.ok {
+			// positive conjunction: a conjunct that has no executable counterpart is dropped (the
+			// clause can then only be confirmed false through the conjuncts that are evaluated)
+			side := func(e ast.Expr) string {
+				s := g.tr(e, inOld)
+				if !g.ok {
+					g.ok, g.why, g.partial = true, "", true
+					return "true"
+				}
+				return s
+			}
+			return "(" + side(x.X) + " && " + side(x.Y) + ")"
+		}
+		if x.Op == token.LAND || x.Op == token.LOR {
+			return "(" + g.tr(x.X, inOld) + " " + x.Op.String() + " " + g.tr(x.Y, inOld) + ")"
+		}
+		savedPos := g.pos
+		g.pos = false // operands of comparisons / arithmetic are not formulas
 		l, r := g.tr(x.X, inOld), g.tr(x.Y, inOld)
+		g.pos = savedPos
 		if x.Op == token.EQL || x.Op == token.NEQ {
 			// slices and interfaces holding slices are not comparable in Go: only nil comparisons are kept
 			if _, isNil := x.Y.(*ast.Ident); !(isNil && r == "nil") {
@@ -662,7 +686,11 @@ func (g *goTr) tr(x ast.Expr, inOld bool) string {
 		arg := func(i int) string { return g.tr(x.Args[i], inOld) }
 		switch name {
 		case "implies":
-			return "(!(" + arg(0) + ") || (" + arg(1) + "))"
+			savedPos := g.pos
+			g.pos = false
+			a := arg(0)
+			g.pos = savedPos
+			return "(!(" + a + ") || (" + arg(1) + "))"
 		case "len", "cap":
 			return name + "(" + arg(0) + ")"
 		case "old":
@@ -767,7 +795,9 @@ func tryReplay(w *World, o *Options, ob *Obligation, base string, log *strings.B
 	fn := e.fn
 	work := filepath.Join(o.verif, ".work", fmt.Sprintf("replay-%s-%d", sanitize(ob.Name), os.Getpid()))
 	os.MkdirAll(work, 0o755)
-	defer os.RemoveAll(work)
+	if os.Getenv("VERIF_KEEP_REPLAY") == "" {
+		defer os.RemoveAll(work)
+	}
 
 	r := &rebuilder{w: w, q: &modelQ{}, st: e.entry, enc: e, pkg: e.pkg, byRef: map[string]string{}}
 	for _, p := range fn.Params {
@@ -830,7 +860,7 @@ func tryReplay(w *World, o *Options, ob *Obligation, base string, log *strings.B
 			}
 		}
 		if cl != nil {
-			g := &goTr{w: w, pkg: e.pkg, vars: map[string]string{}, ok: true}
+			g := &goTr{w: w, pkg: e.pkg, vars: map[string]string{}, ok: true, pos: true}
 			for i, p := range fn.Params {
 				g.vars[p.Name()] = "in" + fmt.Sprint(i)
 			}
